@@ -132,6 +132,8 @@ where
         // write-lock
         let mut val = self.res.write();
         *val = Some(res);
+        #[cfg(xet_verif)]
+        crate::verif_hooks::point("sf.complete.stored");
         self.nt.notify_waiters();
         let num_waiters = self.num_waiters.load(Ordering::SeqCst);
         debug!("Completed Call with: {} waiters", num_waiters);
@@ -145,6 +147,8 @@ where
         if let Some(result) = res.clone() {
             // we already have the result, provide it back to the caller.
             debug!("Call already completed");
+            #[cfg(xet_verif)]
+            crate::verif_hooks::point("sf.get_future.read");
             Either::Left(async move { result })
         } else {
             // no result yet, we are a waiter task.
@@ -155,8 +159,12 @@ where
             // block since we need to register our waiting within this read-lock
             // or else, we might miss the owner task's notification.
             let notified = self.nt.notified();
+            #[cfg(xet_verif)]
+            crate::verif_hooks::point("sf.get_future.registered");
             Either::Right(async move {
                 notified.await;
+                #[cfg(xet_verif)]
+                crate::verif_hooks::point("sf.wake.notified");
                 self.get()
             })
         }
@@ -222,6 +230,8 @@ where
     ) -> (Result<T, SingleflightError<E>>, bool) {
         // Get the call to use and a handle for retrieving the results
         let (call, created) = self.get_call_or_create(key).await;
+        #[cfg(xet_verif)]
+        crate::verif_hooks::point("sf.window.lookup_register");
         let results_future = call.get_future();
 
         if created {
@@ -235,10 +245,14 @@ where
                 .map_err(|e| SingleflightError::JoinError(e.to_string()))
                 .and(future_result);
 
+            #[cfg(xet_verif)]
+            crate::verif_hooks::point("sf.window.complete_remove");
             // since we created the call, remove it from the map
             if let Err(e) = self.remove_call(key).await {
                 return (Err(e), true);
             }
+            #[cfg(xet_verif)]
+            crate::verif_hooks::point("sf.window.remove_return");
             (result, true)
         } else {
             (results_future.await, false)
@@ -263,11 +277,15 @@ where
     async fn get_call_or_create(&self, key: &str) -> (Arc<Call<T, E>>, bool) {
         let mut m = self.call_map.lock().await;
         if let Some(c) = m.get(key).cloned() {
+            #[cfg(xet_verif)]
+            crate::verif_hooks::point("sf.lookup.found");
             (c, false)
         } else {
             let c = Arc::new(Call::new());
             let our_call = c.clone();
             m.insert(key.to_owned(), c);
+            #[cfg(xet_verif)]
+            crate::verif_hooks::point("sf.lookup.created");
             (our_call, true)
         }
     }
@@ -277,6 +295,8 @@ where
     async fn remove_call(&self, key: &str) -> SingleflightResult<(), E> {
         let mut m = self.call_map.lock().await;
         m.remove(key).ok_or(SingleflightError::CallMissing)?;
+        #[cfg(xet_verif)]
+        crate::verif_hooks::point("sf.remove.done");
         Ok(())
     }
 }
@@ -354,6 +374,8 @@ where
         let this = self.project();
         if !this.got_response.load(Ordering::SeqCst) {
             let call = this.call;
+            #[cfg(xet_verif)]
+            crate::verif_hooks::point("sf.drop.panicked");
             call.complete(Err(SingleflightError::OwnerPanicked))
         }
     }
